@@ -9,7 +9,7 @@ EXPLANATION = ("every request's outcome class (accepted / raised) is compared wi
                "generator's validity flag; after every refused request ALL observables of the object and of the graph and divisor it refers to are compared with the snapshot taken before")
 KINDS = ["g_add_edge", "g_add_edges", "g_remove_vertex", "g_get_valence", "g_ctor_dup", "d_ctor", "d_get_degree", "d_lend", "d_borrow", "d_transfer", "d_set_fire", "d_remove_vertex", "d_add_mismatch",
          "c_ctor", "c_get_degree_at", "c_set_fire", "c_is_legal", "c_out_degree", "c_compare", "dhar_ctor", "s_ctor", "s_get", "s_set", "s_update", "o_ctor", "o_get", "o_is_source", "o_degree", "o_divisor", "o_reverse",
-         "o_set", "l_entry", "gon_game", "gon_strategy", "chip"]
+         "o_set", "l_entry", "gon_game", "gon_strategy", "chip", "dhar_fire"]
 def gen(rng, tier):
     out = []
     for _ in range(200 if tier == "quick" else 5000):
@@ -47,6 +47,9 @@ def gen(rng, tier):
                 S = vset(True, avoid_q=True) or [(q + 1) % n]
                 if valid: a = [S[0], S]
                 else: a = rng.choice([[q, S], [n, S], [next((v for v in range(n) if v not in S and v != q), q), S]])
+            elif k == "dhar_fire":      # a firing set handed to a running Dhar object: the sink and unknown names are refused (only refusals are requested here)
+                valid = False; others = [v for v in range(n) if v != q]
+                a = rng.choice([[q], [q] + others[:1], list(range(n)), others[:1] + [n], [n + 1]])
             elif k == "c_compare": a = [0 if valid else 1]      # other config: same q (valid) / other q (refused for <=, >=)
             elif k == "s_ctor": a = [[0, 2], [vtx(valid), -1]]
             elif k in ("s_set", "s_update"): a = [vtx(valid), rng.randint(-3, 3)]
@@ -84,6 +87,7 @@ def impl(c):
     g = common.build_impl_graph(G, rng); d = common.build_impl_divisor(G, c["D"], graph=g, rng=rng); cfg = CFConfig(d, names[q])
     g2 = common.build_impl_graph(G, rng)   # accepted edge insertions go to a graph no other object refers to (an orientation built earlier cannot know new edges)
     for op, v in c["hist"]: (d.lending_move if op == 0 else d.borrowing_move)(names[v])
+    dd = common.build_impl_divisor(G, c["D"], graph=g, rng=rng); dh = DharAlgorithm(g, dd, names[q])
     sc = CFiringScript(g, {names[0]: 2}); o = CFOrientation(g, [(names[a], names[b]) for a, b in c["init_o"]]); L = CFLaplacian(g); gon = CFGonality(g)
     ST = {0: OrientationState.NO_ORIENTATION, 1: OrientationState.SOURCE_TO_SINK, 2: OrientationState.SINK_TO_SOURCE}
     M0 = common.matrix(G)
@@ -94,7 +98,8 @@ def impl(c):
                 if g.graph[Vertex(names[a])].get(Vertex(names[b]), 0) > 0 and M0[a][b] > 0: ori.append(o.get_orientation(names[a], names[b]))
         return (g.to_dict(), [[g.graph[Vertex(x)].get(Vertex(y), 0) for y in names] for x in names], [g.get_valence(x) for x in names], g.total_valence, g.get_genus(),
                 common.div_to_list(G, d), d.get_total_degree(), cfg.get_q_vertex_name(), sorted(cfg.get_v_tilde_names()), dict(sc.script), ori,
-                [o.get_in_degree(x) for x in names], [o.get_out_degree(x) for x in names], sorted(v.name for v in g.vertices), sorted(v.name for v in d.degrees))
+                [o.get_in_degree(x) for x in names], [o.get_out_degree(x) for x in names], sorted(v.name for v in g.vertices), sorted(v.name for v in d.degrees),
+                common.div_to_list(G, dd), dd.get_total_degree())
     out = []
     for r in c["reqs"]:
         k, a = r["k"], r["a"]; before = snap(); res = "ok"; extra = None
@@ -139,6 +144,7 @@ def impl(c):
             elif k == "gon_strategy":
                 pl = CFDivisor(g, [(names[0], 2)]); gon.test_n_chip_strategy(2 + a[0], pl)
             elif k == "chip": chip(g, ext[a[0]])
+            elif k == "dhar_fire": dh.legal_set_fire({ext[v] for v in a})
         except Exception as e:
             res = "err:" + type(e).__name__
         after = snap()
